@@ -1059,8 +1059,8 @@ def null_model_und_sign(W, bin_swaps=5, wei_freq=.1, seed=None):
             Acur = An
             A_rcur = An_r
 
-        S = np.sum(W * Acur, axis=0)  # strengths
-        Wv = np.sort(W[np.where(np.triu(Acur))])  # sorted weights vector
+        S = np.sum(s * W * Acur, axis=0)  # strengths
+        Wv = np.sort(s * W[np.where(np.triu(Acur))])  # sorted weights vector
         i, j = np.where(np.triu(A_rcur))
         Lij, = np.where(np.triu(A_rcur).flat)  # weights indices
 
